@@ -1,6 +1,6 @@
 """Re-run the target property's check against every stored seeded change (regression of the detection table).
 
-usage: python3-vt lib/seedregress.py [--round 1|2|3|4|5|all] [--jobs 3] [--out FILE]
+usage: python3-vt lib/seedregress.py [--round 1|2|3|4|5|all] [--only C03,C09] [--jobs 3] [--out FILE]
 Each seed: scratch worktree of /repo HEAD under /tmp, git apply seeded/<name>/patch.diff, VERIF_REPO=<wt> ./check <ID> --tier quick,
 worktree removed.  Nothing under seeded/ is modified."""
 import concurrent.futures as cf
@@ -31,7 +31,7 @@ def one(name):
 
 
 def main():
-    rnd, jobs, out = "all", 3, "/tmp/seedregress.json"
+    rnd, jobs, out, only = "all", 3, "/tmp/seedregress.json", None
     a = sys.argv[1:]
     for i, x in enumerate(a):
         if x == "--round":
@@ -40,11 +40,15 @@ def main():
             jobs = int(a[i + 1])
         if x == "--out":
             out = a[i + 1]
+        if x == "--only":
+            only = set(a[i + 1].split(","))
     names = sorted(p.name for p in (ROOT / "seeded").iterdir() if (p / "patch.diff").is_file())
     if rnd == "1":
         names = [n for n in names if "-r" not in n]
     elif rnd in ("2", "3", "4", "5"):
         names = [n for n in names if f"-r{rnd}-" in n]
+    if only:
+        names = [n for n in names if n[:3] in only]
     res = {}
     with cf.ThreadPoolExecutor(jobs) as ex:
         for name, pid, rc, line in ex.map(one, names):
